@@ -689,13 +689,14 @@ theorem ledgerK_nodup (K : Nat → List Nat) (r : Reg) (L : Ledger) (op : Op) (L
 /-- well-formedness looks at the ledger as a set (plus distinctness of its addresses) -/
 theorem WF.congr {c : Cfg} {r : Reg} {L L' : Ledger} (h : WF c r L) (hm : ∀ x, x ∈ L' ↔ x ∈ L) (hnd : (keys L').Nodup) :
     WF c r L' := by
-  refine ⟨⟨h.core.inv, ?_⟩, h.count, h.room, ⟨?_, ?_, h.bounded.zero⟩, hnd, h.pend⟩
+  refine ⟨⟨h.core.inv, ?_⟩, h.count, h.room, ⟨?_, ?_, h.bounded.zero, ?_⟩, hnd, h.pend⟩
   · intro e; rw [h.core.ents e, hm]
   · intro p b hp; exact h.bounded.bounds p b ((hm _).1 hp)
   · intro p b hp; exact h.bounded.aligned p b ((hm _).1 hp)
+  · intro p b hp; exact h.bounded.nonnull p b ((hm _).1 hp)
 
 /-- **one operation, destructors `K`, any ledger the abstract transitions allow**: the new state is well formed for it -/
-theorem ledgerK_wf (c : Cfg) (g : GoodCfg c) (K : Nat → List Nat) (hK : NoNull K) (r : Reg) (L : Ledger) (hwf : WF c r L)
+theorem ledgerK_wf (c : Cfg) (g : GoodCfg c) (K : Nat → List Nat) (hK : NullOk c K) (r : Reg) (L : Ledger) (hwf : WF c r L)
     (op : Op) (hok : okOp L op) (r' : Reg) (L' : Ledger) (hstep : stepK c K r op = some r') (hled : LedgerK K r L op L') :
     WF c r' L' := by
   obtain ⟨r'', L'', h1, h2, h3⟩ := stepK_wf c g K hK r L hwf op hok
@@ -704,7 +705,7 @@ theorem ledgerK_wf (c : Cfg) (g : GoodCfg c) (K : Nat → List Nat) (hK : NoNull
   exact h3.congr (ledgerK_members K r L op L' L'' hwf.nodup hok hled h2) (ledgerK_nodup K r L op L' hwf.nodup hok hled)
 
 /-- every state reached by a history with destructors `K` is well formed for every ledger that explains the history -/
-theorem reachK_wf (c : Cfg) (g : GoodCfg c) (K : Nat → List Nat) (hK : NoNull K) (r : Reg) (L : Ledger) (h : ReachK c K r L) :
+theorem reachK_wf (c : Cfg) (g : GoodCfg c) (K : Nat → List Nat) (hK : NullOk c K) (r : Reg) (L : Ledger) (h : ReachK c K r L) :
     WF c r L := by
   induction h with
   | init => exact wf_init c
